@@ -168,6 +168,56 @@ def rules(t, u, hist_tbl):
     return out
 
 
+def g12_run(carve):
+    """columns of parametrised types (Decimal(p, s), Enum) mixed with other types: a type error is the documented
+    DataTypeError (expressions) / TypeError (union), never an internal error; well-typed uses are accepted and export (Polars)"""
+    import decimal
+
+    import polars as pl
+
+    from .c13 import _enum_outcome
+
+    D = decimal.Decimal
+    n, bad = 0, []
+    with warnings.catch_warnings():
+        warnings.simplefilter("ignore")
+        dec = pdt.Table(pl.DataFrame({"a": pl.Series([D("1.00"), D("2.50"), None], dtype=pl.Decimal(10, 2)), "k": [1, 2, 3], "e": pl.Series(["x", "y", None], dtype=pl.Enum(["x", "y"]))}), name="dec")
+        ints = pdt.Table(pl.DataFrame({"a": [1, 2, 3], "k": [1, 2, 3], "e": pl.Series(["x", "y", None], dtype=pl.Enum(["x", "y"]))}), name="ints")
+        documented = (E.DataTypeError, TypeError)
+        rejected = {
+            "case branches Decimal / Int64 column": lambda: dec >> pdt.mutate(z=pdt.when(dec.k > 1).then(dec.a).otherwise(dec.k)),
+            "case branches Decimal / int literal": lambda: dec >> pdt.mutate(z=pdt.when(dec.k > 1).then(dec.a).otherwise(1)),
+            "case branches float literal / Decimal, aggregated": lambda: dec >> pdt.summarize(z=pdt.when(dec.k > 1).then(0.5).otherwise(dec.a).max()),
+            "case branches nested in filter": lambda: dec >> pdt.filter(pdt.when(dec.k > 1).then(dec.k).otherwise(dec.a).is_null()),
+            "union Decimal | Int64": lambda: (dec >> pdt.select(dec.a)) >> pdt.union(ints >> pdt.select(ints.a)),
+            "union Int64 | Decimal": lambda: (ints >> pdt.select(ints.a)) >> pdt.union(dec >> pdt.select(dec.a)),
+            "coalesce(Decimal, String)": lambda: dec >> pdt.mutate(z=pdt.coalesce(dec.a, "x")),
+            "Enum + Int": lambda: dec >> pdt.mutate(z=dec.e + 1),
+        }
+        for label, th in rejected.items():
+            n += 1
+            try:
+                th()
+                bad.append(f"{label}: accepted")
+            except documented:
+                pass
+            except Exception as ex:  # noqa: BLE001
+                bad.append(f"{label}: raises {type(ex).__name__} ({str(ex)[:80]}) instead of DataTypeError / TypeError")
+        accepted = {
+            "case with Decimal branches": lambda: dec >> pdt.mutate(z=pdt.when(dec.k > 1).then(dec.a).otherwise(None)),
+            "union Decimal | Decimal": lambda: dec >> pdt.union(dec >> pdt.alias("dec2")),
+            "shift / fill_null / == None / is_in(None) / coalesce(col, None) on Decimal and Enum columns": lambda: dec >> pdt.mutate(s=dec.a.shift(1, arrange=dec.k), f=dec.a.fill_null(None), q=dec.a == None, i=dec.e.is_in(None), c=pdt.coalesce(dec.e, None), es=dec.e.shift(1, arrange=dec.k)),  # noqa: E711
+            "Decimal arithmetic and comparison": lambda: dec >> pdt.mutate(p=dec.a + dec.a, c=dec.a > dec.a, m=pdt.max(dec.a, dec.a)),
+        }
+        for label, th in accepted.items():
+            n += 1
+            try:
+                th() >> pdt.export(pdt.Polars())
+            except Exception as ex:  # noqa: BLE001
+                bad.append(f"{label}: {type(ex).__name__}: {str(ex)[:100]}")
+    return _enum_outcome("Decimal / Enum columns: ill-typed mixes raise the documented error when built, well-typed uses export", n, bad)
+
+
 def g_rules_run(carve):
     n, bad = 0, []
     with warnings.catch_warnings():
@@ -294,6 +344,8 @@ def obligations(tier):
         Obligation("C14/G0/traversal", "G0", "traversal completeness per expression class", g0_run, functions=tf, bounded="one instance per expression class / field shape", carveouts={"evalaligned": "EvalAligned"}),
         Obligation("C14/G1-G10/rules", "G1-G10", "rejection rules x positions x histories x backends", g_rules_run, functions=vf + ef, bounded="~110 rule/position instances x 4 histories x 2 backends (native execution)",
                    carveouts={}),
+        Obligation("C14/G12/parametrised_types", "G12", "Decimal(p, s) / Enum columns: type errors are DataTypeError / TypeError at the verb call, well-typed uses export (Polars)", g12_run, functions=[H.fn_info(H.types_mod.lca_type), H.fn_info(H.types_mod.converts_to)],
+                   bounded="8 ill-typed and 4 well-typed uses of a Decimal(10, 2) and an Enum column"),
         Obligation("C14/G11/backend_independence", "G11", "validation code does not inspect the backend", g11_run, functions=vf, bounded=None),
     ]
 
